@@ -1153,3 +1153,54 @@ Example str_A_canonical :
   exists h0, header_new str_A = Ok h0 /\ h_text h0 = str_A /\ forallb is_allowed_byte str_A = true
              /\ (length str_A <= MAX_MESSAGE_LENGTH)%nat.
 Proof. eexists. split; [vm_compute; reflexivity|]. split; [reflexivity|]. split; [reflexivity|]. vm_compute. lia. Qed.
+
+(** * C10: the assembler forgets.  Once everything it holds has expired (history entries, the
+    duplicate record) and nothing is pending, it answers every further history exactly as a
+    newly built one does. *)
+Definition stale (s : asm) (now : N) : Prop :=
+  Forall (fun e => t_deadline e <= now) (a_history s)
+  /\ a_pending s = None
+  /\ (forall p, a_previous s = Some p -> t_deadline p <= now).
+
+Lemma filter_stale (h : list (timed bytes)) now n :
+  Forall (fun e => t_deadline e <= now) h -> now <= n ->
+  filter (fun e => negb (is_expired_at e n)) h = [].
+Proof.
+  intros H Hn. induction H as [|e h He _ IH]; [reflexivity|]. cbn [filter].
+  unfold is_expired_at at 1. assert ((t_deadline e <=? n) = true) as -> by lia. exact IH.
+Qed.
+
+Lemma stale_idle s now n : stale s now -> now <= n ->
+  fst (asm_idle s n) = TIdle /\ stale (snd (asm_idle s n)) n.
+Proof.
+  intros (Hh & Hp & Hv) Hn. unfold asm_idle, prune_history. rewrite (filter_stale _ now n Hh Hn), Hp.
+  cbn [keep_last2 pending_poll fst snd]. split; [reflexivity|].
+  repeat split; cbn [a_history a_pending a_previous]; [constructor|].
+  intros p Hq. specialize (Hv p Hq). lia.
+Qed.
+
+Lemma stale_assemble s now n b : stale s now -> now <= n -> b <> [] ->
+  asm_assemble s b n = asm_assemble asm_init b n.
+Proof.
+  intros (Hh & Hp & Hv) Hn Hb. rewrite !assemble_unfold by exact Hb.
+  unfold prune_history at 1 2. rewrite (filter_stale _ now n Hh Hn), Hp.
+  assert (prune_previous (a_previous s) n = None) as ->.
+  { destruct (a_previous s) as [p|] eqn:E; [|reflexivity]. cbn [prune_previous]. unfold is_expired_at.
+    specialize (Hv p eq_refl). assert ((t_deadline p <=? n) = true) as -> by lia. reflexivity. }
+  reflexivity.
+Qed.
+
+Theorem stale_behaves_as_new : forall ops s now,
+  stale s now -> mono now ops -> fst (asm_run s ops) = fst (asm_run asm_init ops).
+Proof.
+  induction ops as [|o ops IH]; intros s now Hs Hm; [reflexivity|].
+  destruct Hm as [Hm1 Hm2]. rewrite !asm_run_cons. cbn [fst].
+  assert (forall n, asm_idle asm_init n = (TIdle, asm_init)) as Hinit by reflexivity.
+  destruct o as [n|b n]; cbn [asm_op op_time] in *.
+  - destruct (stale_idle s now n Hs Hm1) as [Ho Hs']. rewrite Ho, Hinit. cbn [fst snd]. f_equal.
+    apply (IH _ n Hs' Hm2).
+  - destruct b as [|b0 b'].
+    + cbn [asm_assemble]. destruct (stale_idle s now n Hs Hm1) as [Ho Hs']. rewrite Ho, Hinit. cbn [fst snd]. f_equal.
+      apply (IH _ n Hs' Hm2).
+    + rewrite (stale_assemble s now n (b0 :: b') Hs Hm1) by discriminate. reflexivity.
+Qed.
